@@ -3267,6 +3267,32 @@ func (r *Resolver) clearAdditional(req, resp *dns.Msg, extra ...bool) *dns.Msg {
 		if opt := req.IsEdns0(); opt != nil {
 			resp.Extra = append(resp.Extra, opt)
 		}
+	} else {
+		// The section is kept for root priming, which reads the name
+		// servers' addresses from it. Keep exactly that — address records
+		// owned by a name server the answer lists — and the OPT; anything
+		// else the server added is not part of the answer.
+		nsTargets := make(map[string]struct{})
+		for _, rr := range resp.Answer {
+			if ns, ok := rr.(*dns.NS); ok {
+				nsTargets[dns.CanonicalName(ns.Ns)] = struct{}{}
+			}
+		}
+		kept := resp.Extra[:0:0]
+		for _, rr := range resp.Extra {
+			if rr == nil {
+				continue
+			}
+			switch rr.Header().Rrtype {
+			case dns.TypeOPT:
+				kept = append(kept, rr)
+			case dns.TypeA, dns.TypeAAAA, dns.TypeRRSIG:
+				if _, ok := nsTargets[dns.CanonicalName(rr.Header().Name)]; ok {
+					kept = append(kept, rr)
+				}
+			}
+		}
+		resp.Extra = kept
 	}
 
 	return resp
